@@ -7,6 +7,7 @@ import (
 	"go/types"
 	"os"
 	"path/filepath"
+	"regexp"
 	"sort"
 	"strings"
 
@@ -778,12 +779,18 @@ func ruleUnifiedHeaderSize(c *Ctx, r *Report) {
 // that bounds the wrong sum lets a length wrap, and the decoder rejects (or mis-frames) what the
 // encoder produced. Narrowings of quantities the function never compares with anything are
 // listed as information only: their bound is the caller's business and not decided here.
+var lenOfFieldRe = regexp.MustCompile(`len\(p0\.(\w+)\)\)*$`)
+
 func ruleLengthNarrowing(c *Ctx, r *Report) {
 	const rule = "length-narrowing"
 	c.boundsInit()
 	narrowMode = true
 	defer func() { narrowMode = false }()
 	n, related, unrel := 0, 0, 0
+	var uncheckedList []string
+	type unboundedSite struct{ fieldKey, key, pos string }
+	var unboundedSites []unboundedSite
+	boundedSibling := map[string]string{}
 	wasProved := map[string]bool{}
 	if b, err := os.ReadFile(filepath.Join(c.VerifDir, "spec", "narrowing_baseline.json")); err == nil {
 		var t struct {
@@ -810,8 +817,15 @@ func ruleLengthNarrowing(c *Ctx, r *Report) {
 			n++
 			r.Sites++
 			key := fmt.Sprintf("%s|%s|%s", short(fn), s.what, normSiteShape(s.ins))
+			fieldKey := ""
+			if m := lenOfFieldRe.FindStringSubmatch(normSiteShape(s.ins)); m != nil {
+				fieldKey = s.what + " of len(." + m[1] + ")"
+			}
 			if s.ok {
 				r.OK(rule, key, c.ipos(s.ins), "narrowing proved lossless")
+				if fieldKey != "" && boundedSibling[fieldKey] == "" {
+					boundedSibling[fieldKey] = short(fn)
+				}
 				continue
 			}
 			if len(s.relFacts) > 0 {
@@ -824,8 +838,22 @@ func ruleLengthNarrowing(c *Ctx, r *Report) {
 				continue
 			}
 			unrel++
+			uncheckedList = append(uncheckedList, key+" @ "+c.ipos(s.ins))
+			if fieldKey != "" {
+				unboundedSites = append(unboundedSites, unboundedSite{fieldKey, key, c.ipos(s.ins)})
+			}
 		}
 	}
+	// siblings agree: where one encoder bounds len(.F) before narrowing it to a wire field of some
+	// width, an encoder of another message that narrows a field of the same name to the same width
+	// without any bound is the odd one out
+	for _, u := range unboundedSites {
+		if sib := boundedSibling[u.fieldKey]; sib != "" {
+			r.Bad(rule, u.key+":sibling", u.pos, "the "+u.fieldKey+" is written unbounded here while the sibling encoder "+sib+" refuses a value that does not fit: an oversized field is framed with a wrapped length and the encoder's own output is refused (or mis-split) by the decoder")
+		}
+	}
+	sort.Strings(uncheckedList)
+	r.Extra["unchecked_narrowings"] = uncheckedList
 	r.Note(rule, "unchecked-narrowings", "", fmt.Sprintf("%d narrowing(s) of quantities their function never bounds: not decided", unrel))
 	r.Floor(rule, n, 20)
 	_ = related
@@ -1021,5 +1049,407 @@ func ruleNilableLookupChecked(c *Ctx, r *Report) {
 		}
 	}
 	r.Extra["nilable_lookup_functions"] = len(nilable)
+	r.Floor(rule, n, 1)
+}
+
+// ruleDeclaredRegionReads (C18, "bytes beyond a declared length are never consumed"): a decoder
+// loop whose continuation test holds a counter against a length decoded from the wire reads only
+// inside the region that length covers. For every read of the decoded buffer in such a loop - a
+// slice with both bounds, a big-endian read of an open-ended slice, an indexed byte - with the
+// region starting at (low bound of the read - counter), the end of the read is proven not to lie
+// behind (region start + declared bound) under the facts in force at the read. A loop that steps
+// by k over a vector whose length is not a multiple of k otherwise assembles its last element
+// from the bytes that follow the vector. A test that the bound is a multiple of the step, made
+// before the loop, grants the k-1 bytes of slack the linear engine cannot derive.
+func ruleDeclaredRegionReads(c *Ctx, r *Report) {
+	const rule = "declared-region-reads"
+	c.boundsInit()
+	n := 0
+	for _, fn := range c.Fns {
+		if !isDecoderFn(fn) {
+			continue
+		}
+		decl := declaredLengths(fn)
+		if len(decl) == 0 {
+			continue
+		}
+		isDecl := map[ssa.Value]bool{}
+		for _, d := range decl {
+			isDecl[d] = true
+		}
+		a := getAn(fn)
+		for li, l := range naturalLoops(fn) {
+			iff, ok := l.header.Instrs[len(l.header.Instrs)-1].(*ssa.If)
+			if !ok {
+				continue
+			}
+			bo, ok := iff.Cond.(*ssa.BinOp)
+			if !ok || (bo.Op != token.LSS && bo.Op != token.LEQ) || !l.blocks[l.header.Succs[0]] {
+				continue
+			}
+			// counter: the header phi under the left side (phi or phi + const)
+			pv := stripConv(bo.X)
+			if b2, isB := pv.(*ssa.BinOp); isB && b2.Op == token.ADD {
+				if _, isC := constInt(b2.Y); isC {
+					pv = stripConv(b2.X)
+				}
+			}
+			ctr, isPhi := pv.(*ssa.Phi)
+			if !isPhi || ctr.Block() != l.header || !l.invariant(bo.Y, 0) {
+				continue
+			}
+			// bound derives from a declared length and from no buffer length
+			fromDecl, fromLen := false, false
+			for _, leaf := range c.Origins(bo.Y, 0) {
+				if isDecl[leaf] {
+					fromDecl = true
+				}
+			}
+			var scan func(v ssa.Value, d int)
+			scan = func(v ssa.Value, d int) {
+				if d > 6 {
+					return
+				}
+				switch x := v.(type) {
+				case *ssa.BinOp:
+					scan(x.X, d+1)
+					scan(x.Y, d+1)
+				case *ssa.Convert:
+					if isDecl[x] {
+						fromDecl = true
+					}
+					scan(x.X, d+1)
+				case *ssa.Call:
+					if calleeName(&x.Call) == "builtin:len" {
+						fromLen = true
+					}
+				}
+			}
+			scan(bo.Y, 0)
+			if !fromDecl || fromLen {
+				continue
+			}
+			bound := a.linOf(bo.Y, 0)
+			ctrL := a.linOf(ctr, 0)
+			if !bound.ok || !ctrL.ok {
+				continue
+			}
+			// step and start of the counter; slack from a divisibility test
+			slack := int64(0)
+			var start ssa.Value
+			step := int64(0)
+			for i, p := range l.header.Preds {
+				if !l.blocks[p] {
+					start = ctr.Edges[i]
+					continue
+				}
+				if inc, ok := stripConv(ctr.Edges[i]).(*ssa.BinOp); ok && inc.Op == token.ADD && stripConv(inc.X) == ssa.Value(ctr) {
+					if k, isK := constInt(inc.Y); isK {
+						step = k
+					}
+				}
+			}
+			if step > 1 && start != nil {
+				span := bound.add(a.linOf(start, 0), -1)
+				for _, b := range fn.Blocks {
+					for _, in := range b.Instrs {
+						rem, ok := in.(*ssa.BinOp)
+						if !ok || rem.Op != token.REM || !b.Dominates(l.header) {
+							continue
+						}
+						if k, isK := constInt(rem.Y); !isK || k != step {
+							continue
+						}
+						x := a.linOf(rem.X, 0)
+						facts := a.blockFacts(l.header)
+						if x.ok && span.ok && a.prove(facts, x.add(span, -1), 0) && a.prove(facts, span.add(x, -1), 0) {
+							// the remainder is compared with zero and the unequal branch does not reach the loop
+							for _, ref := range *rem.Referrers() {
+								cmp, ok := ref.(*ssa.BinOp)
+								if !ok || (cmp.Op != token.NEQ && cmp.Op != token.EQL) {
+									continue
+								}
+								if k0, isK := constInt(cmp.Y); isK && k0 == 0 {
+									slack = step - 1
+								}
+							}
+						}
+					}
+				}
+			}
+			// reads of byte buffers inside the loop
+			for b := range l.blocks {
+				for _, in := range b.Instrs {
+					var lo, hi lin
+					what := ""
+					switch x := in.(type) {
+					case *ssa.Slice:
+						if !isByteSlice(x.X.Type()) || !l.invariant(x.X, 0) || x.Low == nil {
+							continue
+						}
+						lo = a.linOf(x.Low, 0)
+						if x.High != nil {
+							hi = a.linOf(x.High, 0)
+							what = "slice"
+						} else {
+							// an open-ended slice handed to a fixed-width big-endian read
+							width := int64(0)
+							for _, ref := range *x.Referrers() {
+								if cl, ok := ref.(*ssa.Call); ok {
+									nm := calleeName(&cl.Call)
+									switch {
+									case strings.HasSuffix(nm, ".Uint16"):
+										width = 2
+									case strings.HasSuffix(nm, "Uint24"):
+										width = 3
+									case strings.HasSuffix(nm, ".Uint32"):
+										width = 4
+									case strings.HasSuffix(nm, ".Uint64"):
+										width = 8
+									}
+								}
+							}
+							if width == 0 {
+								continue
+							}
+							hi = lo.add(konst(width), 1)
+							what = fmt.Sprintf("%d-byte read", width)
+						}
+					case *ssa.IndexAddr:
+						if !isByteSlice(x.X.Type()) || !l.invariant(x.X, 0) {
+							continue
+						}
+						lo = a.linOf(x.Index, 0)
+						hi = lo.add(konst(1), 1)
+						what = "indexed byte"
+					default:
+						continue
+					}
+					if !lo.ok || !hi.ok {
+						continue
+					}
+					// the read must move with the counter: (lo - counter) is loop-invariant
+					base := lo.add(ctrL, -1)
+					variant := false
+					for at := range base.c {
+						if phi, ok := at.v.(*ssa.Phi); ok && l.blocks[phi.Block()] {
+							variant = true
+						}
+					}
+					if variant {
+						continue
+					}
+					n++
+					r.Sites++
+					facts := append([]cons{}, a.blockFacts(b)...)
+					facts = append(facts, a.inv...)
+					goal := base.add(bound, 1).add(hi, -1).add(konst(slack), 1)
+					key := fmt.Sprintf("%s:loop%d:%s", short(fn), li+1, what)
+					r.Check(a.prove(facts, goal, 0), rule, key, c.ipos(in), "the read stays inside the region the declared length covers", "a decoder loop bounded by a length read from the wire reads ("+what+") past the end of the region that length covers: with a declared length that is not a multiple of the element size the last element is assembled from the bytes that follow the vector")
+				}
+			}
+		}
+	}
+	r.Floor(rule, n, 2)
+}
+
+// ruleKeyMaterialNotEmpty (C18): the key-exchange decoders never accept a zero declared length for
+// the fields their own encoders cannot frame when empty - the ECDHE public key of a
+// ClientKeyExchange / ServerKeyExchange and the signature of a ServerKeyExchange that names a
+// scheme. With the declared length of the field (the wire integer that bounds the slice stored
+// into it) and the length of the stored field bound to zero, no successful exit of Unmarshal is
+// reachable behind the store. An accepted message of that kind has no encoding: Marshal emits a
+// single zero byte, or drops the ECDHE parameters, or refuses the scheme without signature, so
+// decode(encode(decode(x))) fails. The three instances are a reviewed table.
+func ruleKeyMaterialNotEmpty(c *Ctx, r *Report) {
+	const rule = "key-material-not-empty"
+	n := 0
+	for _, inst := range []struct{ typ, field string }{
+		{"MessageClientKeyExchange", "PublicKey"},
+		{"MessageServerKeyExchange", "PublicKey"},
+		{"MessageServerKeyExchange", "Signature"},
+	} {
+		fn := c.need(r, rule, "(*pkg/protocol/handshake."+inst.typ+").Unmarshal")
+		if fn == nil {
+			continue
+		}
+		r.Sites += len(fn.Blocks)
+		decl := map[ssa.Value]bool{}
+		for _, d := range declaredLengths(fn) {
+			decl[d] = true
+		}
+		key := short(fn) + ":" + inst.field
+		var store *ssa.Store
+		for _, b := range fn.Blocks {
+			for _, in := range b.Instrs {
+				if st, ok := in.(*ssa.Store); ok {
+					if _, f, _, ok := fieldOfAddr(st.Addr); ok && f == inst.field {
+						store = st
+					}
+				}
+			}
+		}
+		if store == nil {
+			r.Unk(rule, key, c.pos(fn.Pos()), "the decoder does not store the field")
+			continue
+		}
+		// the wire integers that bound the stored slice
+		lens := map[ssa.Value]bool{}
+		var scan func(v ssa.Value, d int)
+		scan = func(v ssa.Value, d int) {
+			if v == nil || d > 8 {
+				return
+			}
+			if decl[v] {
+				lens[v] = true
+				return
+			}
+			switch x := v.(type) {
+			case *ssa.Call:
+				for _, a := range x.Call.Args {
+					scan(a, d+1)
+				}
+			case *ssa.Slice:
+				scan(x.High, d+1)
+			case *ssa.BinOp:
+				scan(x.X, d+1)
+				scan(x.Y, d+1)
+			case *ssa.Convert:
+				scan(x.X, d+1)
+			case *ssa.Phi:
+				for _, e := range x.Edges {
+					scan(e, d+1)
+				}
+			}
+		}
+		scan(store.Val, 0)
+		// keep only the length that is not also part of the low bound (the running offset)
+		if sl := firstSlice(store.Val); sl != nil && sl.Low != nil {
+			lowLens := map[ssa.Value]bool{}
+			saved := lens
+			lens = lowLens
+			scan(sl.Low, 0)
+			lens = saved
+			for v := range lowLens {
+				delete(lens, v)
+			}
+		}
+		if len(lens) == 0 {
+			r.Unk(rule, key, c.ipos(store), "the stored slice is not bounded by a length read from the wire")
+			continue
+		}
+		n++
+		w := &Walk{Fn: fn, Follow: followSamePkg(fn), Assume: func(v ssa.Value) (Val, bool) {
+			if lens[v] {
+				return vInt(0), true
+			}
+			if cl, ok := v.(*ssa.Call); ok && calleeName(&cl.Call) == "builtin:len" && len(cl.Call.Args) == 1 {
+				if _, f, _, ok := fieldLoad(cl.Call.Args[0]); ok && f == inst.field {
+					return vInt(0), true
+				}
+			}
+			return unknown, false
+		}}
+		// rejected before the field is stored?
+		w0 := &Walk{Fn: fn, Follow: followSamePkg(fn), Assume: w.Assume}
+		w0.FromEntry()
+		if !w0.Reached[store] && !w0.overflow {
+			r.OK(rule, key, c.ipos(store), "with a zero declared length the field is never stored (refused before)")
+			continue
+		}
+		w.After(store)
+		leak := ""
+		succ := map[ssa.Instruction]bool{}
+		for _, ri := range possibleSuccessReturns(fn) {
+			succ[ri] = true
+		}
+		for _, ro := range w.Returns {
+			last := len(ro.Vals) - 1
+			if succ[ro.Ret] && !(last >= 0 && ro.Vals[last].Kind == 2 && !ro.Vals[last].B) {
+				leak = c.ipos(ro.Ret)
+			}
+		}
+		r.Check(leak == "", rule, key, c.ipos(store), "a zero declared length for this field is refused", "the decoder accepts a message whose "+inst.field+" has a declared length of zero ("+leak+"), which its own encoder cannot frame: the accepted input has no canonical form (re-encoding it is refused, or yields bytes the decoder refuses)")
+	}
+	r.Floor(rule, n, 3)
+}
+
+func firstSlice(v ssa.Value) *ssa.Slice {
+	for i := 0; i < 6 && v != nil; i++ {
+		switch x := v.(type) {
+		case *ssa.Slice:
+			return x
+		case *ssa.Call:
+			if len(x.Call.Args) == 0 {
+				return nil
+			}
+			v = x.Call.Args[0]
+		default:
+			return nil
+		}
+	}
+	return nil
+}
+
+// ruleRecordContentWithinDeclaredLength (C18): the record decoder hands its content decoder exactly
+// the bytes the header's length field declares: the slice passed on is cut at a bound that derives
+// from Header.ContentLen, or the function compares that field with the length of what it passes on.
+// Otherwise bytes behind the declared length are consumed as content and a record shorter than
+// declared is accepted.
+func ruleRecordContentWithinDeclaredLength(c *Ctx, r *Report) {
+	const rule = "record-content-within-declared-length"
+	fn := c.need(r, rule, "(*pkg/protocol/recordlayer.RecordLayer).Unmarshal")
+	if fn == nil {
+		return
+	}
+	r.Sites += len(fn.Blocks)
+	isContentLen := func(v ssa.Value) bool {
+		for _, l := range c.Origins(stripConv(v), 0) {
+			if _, f, _, ok := fieldLoad(stripConv(l)); ok && f == "ContentLen" {
+				return true
+			}
+		}
+		_, f, _, ok := fieldLoad(stripConv(v))
+		return ok && f == "ContentLen"
+	}
+	n := 0
+	for _, b := range fn.Blocks {
+		for _, in := range b.Instrs {
+			call, ok := in.(*ssa.Call)
+			if !ok || !call.Call.IsInvoke() || call.Call.Method.Name() != "Unmarshal" || len(call.Call.Args) != 1 {
+				continue
+			}
+			n++
+			bounded := false
+			if sl, ok := call.Call.Args[0].(*ssa.Slice); ok && sl.High != nil {
+				var scan func(v ssa.Value, d int) bool
+				scan = func(v ssa.Value, d int) bool {
+					if d > 5 {
+						return false
+					}
+					if isContentLen(v) {
+						return true
+					}
+					if bo, ok := stripConv(v).(*ssa.BinOp); ok {
+						return scan(bo.X, d+1) || scan(bo.Y, d+1)
+					}
+					return false
+				}
+				bounded = scan(sl.High, 0)
+			}
+			if !bounded {
+				for _, b2 := range fn.Blocks {
+					for _, in2 := range b2.Instrs {
+						if bo, ok := in2.(*ssa.BinOp); ok && (bo.Op == token.EQL || bo.Op == token.NEQ || bo.Op == token.LSS || bo.Op == token.GTR || bo.Op == token.LEQ || bo.Op == token.GEQ) {
+							if (isContentLen(bo.X) || isContentLen(bo.Y)) && instrDominates(bo, call) {
+								bounded = true
+							}
+						}
+					}
+				}
+			}
+			r.Check(bounded, rule, short(fn)+":content", c.ipos(call), "the content decoder receives the bytes the header's length field declares", "the content handed to the content decoder is everything behind the header: Header.ContentLen is never compared with it, so bytes behind the declared length are consumed (application data, return-routability messages of unknown type) and a record shorter than declared is accepted")
+		}
+	}
 	r.Floor(rule, n, 1)
 }
